@@ -36,3 +36,10 @@ package contracts
 //@   modifies registered
 //@   ensures registered[specOf[id]] == old(registered[specOf[id]]) - 1
 //@   ensures forall(c, string, c != specOf[id] ==> registered[c] == old(registered[c]))
+
+//@ package sort
+
+// sort.Strings sorts in place in increasing order (the permutation part is not stated).
+//@ trusted func Strings
+//@   modifies elems(x)
+//@   ensures forall(i, 0, len(x)-1, !(x[i+1] < x[i]))
